@@ -330,15 +330,19 @@ fn random_text(r: &mut Rng, alpha: &[char], max: usize) -> String {
 }
 
 fn random_doc(r: &mut Rng, maxl: usize, maxa: usize, maxv: usize) -> Value {
-    let keys = ["rt", "if", "ct", "title*", "k-1", "é", "sz", "a.b_c"];
+    // every attribute name the crate knows (the code is generic: none of them may be treated specially),
+    // some it does not, and links whose attributes all share one key
+    let keys = ["rt", "if", "ct", "title*", "k-1", "é", "sz", "a.b_c", "rel", "anchor", "hreflang", "media", "title", "type", "v", "obs",
+                "ep", "lt", "d", "base", "gp", "et", "REL"];
     let nl = r.below(maxl as u64 + 1);
     let mut d = vec![];
     for _ in 0..nl {
         let target: String = random_text(r, WIDE, 12).replace('>', "/");
         let na = r.below(maxa as u64 + 1);
         let mut attrs = vec![];
+        let one_key = if r.chance(1, 3) { Some(*r.pick(&keys)) } else { None };
         for _ in 0..na {
-            let key = *r.pick(&keys);
+            let key = one_key.unwrap_or_else(|| *r.pick(&keys));
             // values whose edges are (non-ASCII) white space, with nothing that forces quoting in between
             let ws = ['\u{85}', '\u{A0}', '\u{1680}', '\u{2000}', '\u{2003}', '\u{200A}', '\u{2028}', '\u{2029}', '\u{202F}', '\u{205F}', '\u{3000}', ' ', '\t'];
             if r.chance(1, 5) {
